@@ -547,7 +547,11 @@ pub fn tick(ctl: &'static Ctrl) {
     for _ in 0..64 {
         let Some(t) = ctl.next_timer() else { break };
         ctl.advance_clock(t);
-        ctl.timer_quiet(300, before);
+        let q = ctl.timer_quiet(300, before);
+        {
+            let g = ctl.lock();
+            crate::run::dbg(format!("tick -> {t} quiet={q} fired {}->{} timers={:?} parked={} done_gen={} read_gen={} tick_gen={} add_gen={} done_add={}", before, g.fired, g.timers, g.timer_parked, g.timer_done_gen, g.timer_read_gen, g.tick_gen, g.add_gen, g.done_add_gen));
+        }
         if ctl.lock().fired != before {
             break;
         }
@@ -555,6 +559,12 @@ pub fn tick(ctl: &'static Ctrl) {
         if ctl.at_points().iter().any(|(_, p)| p.site.starts_with("timer.")) {
             break;
         }
+    }
+    // several timers may be due at the new time: let the timer thread get through all of them
+    ctl.timer_drain(100);
+    {
+        let g = ctl.lock();
+        crate::run::dbg(format!("drained fired={} done_gen={} read_gen={} tick_gen={} host={:?}", g.fired, g.timer_done_gen, g.timer_read_gen, g.tick_gen, g.timer_host_vid));
     }
 }
 
